@@ -261,6 +261,26 @@ CHECKS["C14"] = dict(
     technique="Lean 4 proof (generic block-codec round-trip + idempotence, hypotheses discharged by decide on tables translated from the C++; string-literal codec) + translator + parseString correspondence + independent-reader oracle on files saved by the real tools",
 )
 
+CHECKS["C17"] = dict(
+    category="proof",
+    text=("Translators tools/translate_lua.py (every addFunction registration of the four Lua command files; argument -> member "
+          "map of the twelve xi_add*prop handlers) and tools/translate_filekeys.py (member -> file key of every toStream) "
+          "regenerate the CODE side from the current C++. The SPEC side (documented argument order as documented file keys; the "
+          "documented model-building command set) is written in Properties/C17.lean. Proved by kernel evaluation on the "
+          "translated tables: every argument of every add-property command lands in the saved file under its documented key "
+          "(args_land_under_documented_keys: composition argument -> member -> key), every command registered with "
+          "underscores is also registered without, with the same handler (both_spellings_registered), every documented "
+          "command needed to build, analyse and query a model is registered for every physics "
+          "(model_building_commands_registered). Decided on the real tools: generated problems of the three physics written "
+          "both as a file and as a Lua command sequence (random registered spelling per command; 2-3 problems built and "
+          "analysed one after another per script): the file saved by xi_saveas equals the file twin in meaning (independent "
+          "reader), xi_analyze + xi_loadsolution from the script give the same triangulation (nodes matched by coordinates), "
+          "potentials (1e-7), point values, integrals and conductor / circuit values (1e-5) as the stand-alone mesher / solver "
+          "on the file. PARTIAL: probdef, set*prop and geometry commands are covered by the end-to-end comparison only."),
+    design_ref="DESIGN.md section 3, C17",
+    technique="Lean 4 proof (decide on tables translated from the C++ against a documented-order spec written in Lean: argument->member->key composition, both spellings, required command set) + two translators + end-to-end Lua-vs-file comparison on the real tools",
+)
+
 NOT_YET = "check not built yet in this round; planned per DESIGN.md section 3 (Lean model + correspondence)"
 
 
